@@ -125,6 +125,70 @@ theorem c15_tracking_invariant_along_histories (h : HSt) (ops : List HOp) (hk : 
     ((∀ c ∈ (hrun h ops).sys.active, c.id ≠ op) → ∀ r, ¬ Owns (hrun h ops).sys op r) :=
   ⟨kinv_run ops hk hf op, (kinv_run ops hk hf op).unlisted⟩
 
+/-- **The recorded graph joins live operations, at every point of every history.**  From a state in which every
+    listed context tracks what its operation owns and every recorded edge joins listed operations (e.g. the empty
+    system), after any sequence of start (of ids that are not active) / acquire / release / complete / abort / kill —
+    with or without trigger events of the open finding — both endpoints of every recorded edge are operations
+    listed in `active_operations`.  (The waiter is the caller of `acquire_resource`; the holder is the lock's
+    owner, and an owner is listed by the tracking invariant; ending an operation removes every edge that mentions
+    it.) -/
+theorem c15_recorded_edges_join_live_operations (h : HSt) (ops : List HOp) (hk : ∀ op, Kinv h.sys op)
+    (hl : EdgesLive h.sys) (hf : FreshStarts h ops) (w b r : Nat)
+    (he : HasEdge (hrun h ops).sys.edges w b r) :
+    (∃ c ∈ (hrun h ops).sys.active, c.id = w) ∧ (∃ c ∈ (hrun h ops).sys.active, c.id = b) :=
+  edgesLive_run ops hk hl hf w b r he
+
+/-- **The reported cycle consists of live operations** — in full, not only outside the trigger of the open finding:
+    at every point of every history every member of a cycle reported by `check_deadlock()` is listed in
+    `active_operations`. -/
+theorem c15_reported_cycle_members_are_live (h : HSt) (ops : List HOp) (hk : ∀ op, Kinv h.sys op)
+    (hl : EdgesLive h.sys) (hf : FreshStarts h ops) (cyc : List Nat)
+    (hc : detectCycle (hrun h ops).sys.edges = some cyc) :
+    ∀ a ∈ cyc, ∃ c ∈ (hrun h ops).sys.active, c.id = a := by
+  intro a ha
+  obtain ⟨_, _, hall⟩ := c15_reported_cycle_is_recorded_cycle _ cyc hc
+  obtain ⟨b, r, _, he⟩ := hall a ha
+  exact (edgesLive_run ops hk hl hf a b r he).1
+
+/-- **A reported deadlock is handled, at every point of every history.**  Whenever `check_deadlock()` reports a
+    cycle, `Watchdog.execute` terminates a member of it — the one `_select_deadlock_victim` picks (for every
+    strategy: a victim exists because the members are live); it is named in the returned events (with the reason
+    DEADLOCK, or with the reason it was already named for in the same pass: TIMEOUT / STARVATION / NO_PROGRESS).
+    Afterwards that operation owns nothing, is not active, is in no waiting list, no recorded edge mentions it, and
+    no cycle reported afterwards contains it: the reported cycle is gone.  The pass is itself a history of endings
+    (`hrun_finishes_sys`), so the two invariants hold again afterwards and the history may go on. -/
+theorem c15_reported_deadlock_is_handled (h : HSt) (ops : List HOp) (hk : ∀ op, Kinv h.sys op)
+    (hl : EdgesLive h.sys) (hf : FreshStarts h ops) (cyc : List Nat)
+    (hc : detectCycle (hrun h ops).sys.edges = some cyc) :
+    ∃ v ∈ cyc, selectVictim (hrun h ops).sys cyc = some v ∧ v ∈ (wdExecute (hrun h ops).sys).2.map (·.1) ∧
+      (∀ r, ¬ Owns (wdExecute (hrun h ops).sys).1 v r) ∧ (∀ c ∈ (wdExecute (hrun h ops).sys).1.active, c.id ≠ v) ∧
+      (∀ r l, (wdExecute (hrun h ops).sys).1.locks r = some l → ∀ e ∈ l.waiting, e.1 ≠ v) ∧
+      (∀ w b r, HasEdge (wdExecute (hrun h ops).sys).1.edges w b r → w ≠ v ∧ b ≠ v) ∧
+      (∀ c', detectCycle (wdExecute (hrun h ops).sys).1.edges = some c' → v ∉ c') ∧
+      (∀ op, Kinv (wdExecute (hrun h ops).sys).1 op) ∧ EdgesLive (wdExecute (hrun h ops).sys).1 := by
+  have hk1 := kinv_run ops hk hf
+  have hl1 := edgesLive_run ops hk hl hf
+  generalize hrun h ops = h1 at hc hk1 hl1
+  obtain ⟨_, hne, hall⟩ := c15_reported_cycle_is_recorded_cycle _ cyc hc
+  obtain ⟨a, ha⟩ : ∃ a, a ∈ cyc := by
+    cases cyc with
+    | nil => exact absurd rfl hne
+    | cons a _ => exact ⟨a, by simp⟩
+  obtain ⟨b, r, _, he⟩ := hall a ha
+  obtain ⟨v, hsel, hvc, hvm⟩ := wdCheck_names_member hc ha (hl1 a b r he).1
+  obtain ⟨cv, _, hcm, hcid, _⟩ := selectVictim_spec hsel
+  have hclean : Clean (abortMany h1.sys ((wdCheck h1.sys).map (·.1))) v :=
+    abortMany_clean_of_mem _ (hk1 v) ⟨cv, hcm, hcid⟩ hvm
+  have hpass : (wdExecute h1.sys).1 = (hrun h1 (((wdCheck h1.sys).map (·.1)).map HOp.finish)).sys :=
+    (hrun_finishes_sys _ h1).symm
+  refine ⟨v, hvc, hsel, hvm, hclean.owns, hclean.active, hclean.waiting, hclean.edges, ?_, ?_, ?_⟩
+  · intro c' hc' hv
+    obtain ⟨_, _, hall'⟩ := c15_reported_cycle_is_recorded_cycle _ c' hc'
+    obtain ⟨b', r', _, he'⟩ := hall' v hv
+    exact (hclean.edges v b' r' he').1 rfl
+  · rw [hpass]; exact kinv_run _ hk1 (freshStarts_finishes _ _)
+  · rw [hpass]; exact edgesLive_run _ hk1 hl1 (freshStarts_finishes _ _)
+
 /-! ### The open finding: the recorded graph is not the reference graph -/
 
 -- FULL (false on the current tree):
@@ -249,6 +313,33 @@ example : Good r0 := by
   · split at hl
     · cases hl; cases ho
     · cases hl
+
+/-- the hypotheses of `c15_recorded_edges_join_live_operations`, `c15_reported_cycle_members_are_live` and
+    `c15_reported_deadlock_is_handled` are satisfiable: in `r0` (and `w0`, `p0`) nothing is owned and nothing is
+    recorded; `FreshStarts` below; the deadlock of `rOps` is reported (example above) -/
+example : (∀ op, Kinv r0.sys op) ∧ EdgesLive r0.sys ∧ (∀ op, Kinv w0.sys op) ∧ EdgesLive w0.sys := by
+  have hr : ∀ o r, ¬ Owns r0.sys o r := by
+    rintro o r ⟨l, hl, ho⟩
+    simp only [r0, Sys.register] at hl
+    split at hl
+    · cases hl; cases ho
+    · split at hl
+      · cases hl; cases ho
+      · cases hl
+  have hw : ∀ o r, ¬ Owns w0.sys o r := by
+    rintro o r ⟨l, hl, ho⟩
+    simp only [w0, Sys.register] at hl
+    split at hl
+    · cases hl; cases ho
+    · split at hl
+      · cases hl; cases ho
+      · split at hl
+        · cases hl; cases ho
+        · cases hl
+  refine ⟨fun op => ⟨fun _ _ _ x hx => absurd hx (hr op x), fun _ x => hr op x⟩, ?_,
+    fun op => ⟨fun _ _ _ x hx => absurd hx (hw op x), fun _ x => hw op x⟩, ?_⟩
+  · rintro w b r ⟨e, he, _⟩; cases he
+  · rintro w b r ⟨e, he, _⟩; cases he
 
 /-- the hypotheses of `c15_tracking_invariant_along_histories` are satisfiable, also on the witness history of
     the open finding (which is not trigger-free) -/
